@@ -145,6 +145,16 @@ class C05(engine.Property):
         elif rng.random() < 0.12:
             # vertices with value equality: equal-but-distinct ends, hash by value
             cfg["vertex_classes"] = ["EqVertex"] if rng.random() < 0.5 else ["EqVertex", "Vertex"]
+        elif rng.random() < 0.15:
+            # a vertex that refuses a third link by raising out of its add_to_link
+            # override: library calls fail half-way and leave half-attached edges
+            cfg["vertex_classes"] = ["PortVertex"] if rng.random() < 0.5 else ["PortVertex", "Vertex"]
+            cfg["weights"]["add_to_link"] = max(cfg["weights"].get("add_to_link", 0), 4)
+            cfg["weights"]["remove_from_link"] = max(cfg["weights"].get("remove_from_link", 0), 3)
+        if rng.random() < 0.1:
+            # an edge class whose add_vertex override raises for some vertices
+            cfg["edge_classes"] = sorted(set(cfg["edge_classes"]) | {"BrittleEdge"})
+            cfg["weights"]["add_to_link"] = max(cfg["weights"].get("add_to_link", 0), 4)
         return cfg
 
     def start(self, cfg):
@@ -310,6 +320,10 @@ class C05(engine.Property):
                 s["fault:flag-flip"] += 1
             st.flag = bool(op["value"])
             return {"flag": st.flag}, None
+        if getattr(st, "dangling", False) and k in MUTATING_OPS:
+            st.diverged = True
+            s["note:run-ended:user-exception-left-a-vertex-listing-a-link-that-omits-it"] += 1
+            return None, None
         self._probes(st, op)
         a, b = st.apply_both(op)
         if a is None and b is None:
@@ -353,6 +367,15 @@ class C05(engine.Property):
                     f"C05/structure-differs-under-caching:{k}",
                     {"op": op, "diff": M.first_difference(snapA, snapB)},
                 )
+            if a is not None and "exc" in a and _dangling_listing(snapB):
+                # an exception out of a user override left a vertex listing a
+                # link that does not name it.  What that vertex's neighbors are
+                # now depends on a link that has no way of telling it about
+                # later changes: nothing said about caching from here on would
+                # be the library's doing
+                # -- so reads are still compared now (the vertex's own change
+                # must have been noticed), but the run ends before the next mutation
+                st.dangling = True
             for key in ("v", "a", "b", "x"):
                 if isinstance(op.get(key), str):
                     st.focus.append(op[key])
@@ -430,6 +453,7 @@ class C05(engine.Property):
             "queue": st.queue,
             "step_no": st.step_no,
             "recent_reads": getattr(st, "recent_reads", []),
+            "dangling": getattr(st, "dangling", False),
         }
         return {"bytes": data, "extras": extras}
 
@@ -450,6 +474,7 @@ class C05(engine.Property):
         st.queue = list(ex["queue"])
         st.step_no = ex["step_no"]
         st.recent_reads = list(ex.get("recent_reads", []))
+        st.dangling = bool(ex.get("dangling", False))
         st.pending = []
         st.restarted = True
         snap_b = st.refresh()
@@ -464,6 +489,14 @@ class C05(engine.Property):
     def load_failed(self, cfg, op, exc):
         # a world that cannot be loaded back is C10's matter, not a cache matter
         return None
+
+
+def _dangling_listing(snap):
+    for lab, d in snap.items():
+        for l in d.get("links", ()):
+            if lab not in snap.get(l, {}).get("ends", ()):
+                return True
+    return False
 
 
 PROPERTY = C05()
